@@ -685,6 +685,50 @@ def rule_r8(repo, run):
                                                                 % ast.unparse(partial) if partial is not None else ""), wf.loc(fn))
 
 
+
+def rule_r9(repo, run):
+    R = run.rule("C08.R9", "an overloaded Python function has one method-table entry, the dispatcher: a wrapper of an overload is "
+                           "never exposed under the bare name, whatever else is true of it (default arguments, ...)")
+    wp = repo.module("wrapp")
+    fn = wp.func("Wrapp.wrap_function")
+    hides = []
+    for a in ast.walk(fn):
+        if isinstance(a, ast.Assign) and pyflow.is_name(a.targets[0], "expose") and isinstance(a.value, ast.Constant) and a.value.value is False:
+            tests = pyflow.dominating_tests(a, stop=fn)
+            if any("overloaded_methods" in ast.unparse(t) for t, pol in tests):
+                hides.append((a, tests))
+    if len(hides) != 1:
+        raise AnalysisError("C08.R9: the `expose = False` of overloaded functions in Wrapp.wrap_function not found")
+    a, tests = hides[0]
+    others = [(ast.unparse(t), pol) for t, pol in tests if "overloaded_methods" not in ast.unparse(t)]
+    run.check(R, "wrapp.Wrapp.wrap_function:overload-not-exposed", not others,
+              "`expose = False` for a function with several overloads is reached only when %s: an overload for which that does not "
+              "hold gets a method-table entry of its own under the bare name, next to the dispatcher's - two entries with one name"
+              % " and ".join("%s is %s" % (t, pol) for t, pol in others), wp.loc(a))
+    # ... and only a function that is alone under its name drops its suffix (the one wrapper stands for every arity)
+    clears = [b for b in ast.walk(fn) if isinstance(b, ast.Assign) and isinstance(b.targets[0], ast.Attribute)
+              and b.targets[0].attr == "function_suffix" and pyflow.const_str(b.value) == ""]
+    for b in clears:
+        tests = pyflow.dominating_tests(b, stop=fn)
+        def alone(t, pol):
+            """the test, taken with its polarity, says that the function has no other overload"""
+            for c in ast.walk(t):
+                if isinstance(c, ast.Compare) and len(c.ops) == 1 and "overloaded_methods" in ast.unparse(c.left) \
+                        and isinstance(c.comparators[0], ast.Constant) and isinstance(c.comparators[0].value, int):
+                    k, op = c.comparators[0].value, c.ops[0]
+                    many = (isinstance(op, ast.Gt) and k >= 1) or (isinstance(op, ast.GtE) and k >= 2) or (isinstance(op, ast.NotEq) and k == 1)
+                    one = (isinstance(op, ast.LtE) and k <= 1) or (isinstance(op, ast.Lt) and k <= 2) or (isinstance(op, ast.Eq) and k == 1)
+                    if (many and not pol) or (one and pol):
+                        return True
+            return False
+        excluded = any(alone(t, pol) for t, pol in tests)
+        run.check(R, "wrapp.Wrapp.wrap_function:suffix-cleared-only-when-alone", excluded,
+                  "`%s` is reached for a function that has other overloads as well: every overload with default arguments gets the "
+                  "bare name - for its wrapper function, its splicer block and its method-table entry" % ast.unparse(b), wp.loc(b))
+    if not clears:
+        raise AnalysisError("C08.R9: the clearing of function_suffix for default arguments in Wrapp.wrap_function was not found")
+
+
 def run(repo, run, tier):
     rule_r1(repo, run)
     rule_r2(repo, run)
@@ -694,3 +738,4 @@ def run(repo, run, tier):
     rule_x(repo, run)
     rule_r7(repo, run)
     rule_r8(repo, run)
+    rule_r9(repo, run)
